@@ -894,3 +894,66 @@ func RunFsyncOrder(c *core.Ctx) {
 	}
 	c.Sample(map[string]any{"engine": "fsync-order", "operations": len(ops), "windows_with_page_writes": checked, "strace_lines": lineNo})
 }
+
+// RunCrashArtifacts plants, in a cleanly closed badger directory, what a kill inside badger's own file
+// handling leaves behind - zero-length memtable logs (a kill between "truncate" and "unlink" while a flushed
+// memtable is deleted, e.g. during Close, or right after a new one was created) - and requires the database
+// to reopen with every acknowledged operation intact. (The random timed kills produce the same artifact
+// only when they happen to land in that window; this makes the observation deterministic.)
+func RunCrashArtifacts(c *core.Ctx) {
+	r := c.R
+	ops := crashHistory(r.U64())
+	backend := gen.Pick(r, []string{BadgerDisk, BadgerShip})
+	c.Backend = backend
+	h, err := Open(c, backend, "")
+	if err != nil {
+		c.Violate("open-error", "%v", err)
+		return
+	}
+	defer h.Destroy()
+	m := model.NewDB()
+	tmp := filepath.Join(c.Scratch, "artifact-tmp")
+	os.MkdirAll(tmp, 0755)
+	for _, o := range ops {
+		err := Do(func() error { return execCrashOp(h.DB, o, tmp) })
+		if o.Kind == "InsertBig" && err != nil {
+			continue
+		}
+		want := applyCrashOp(m, o)
+		if got := Classify(err); got != want {
+			c.Violate("crash:outcome:"+o.Kind, "%s returned %s (%v), the model says %s", o, got, err, want)
+			return
+		}
+	}
+	if err := h.Close(); err != nil {
+		c.Violate("reopen:error", "close failed: %v", err)
+		return
+	}
+	planted := []string{fmt.Sprintf("%05d.mem", 1+r.Intn(3))}
+	if r.Bool() {
+		planted = append(planted, fmt.Sprintf("%05d.mem", 10+r.Intn(50)))
+	}
+	for _, f := range planted {
+		os.WriteFile(filepath.Join(h.Dir, f), nil, 0666)
+	}
+	c.Log("Close(); planted empty memtable logs %v", planted)
+	n, err := Open(c, backend, h.Dir)
+	c.Eval(1)
+	if err != nil {
+		c.Violate("crash:reopen", "after a kill that left zero-length memtable logs %v behind, the badger-backed database cannot be reopened: %v", planted, firstLine(err.Error()))
+		return
+	}
+	*h = *n
+	if ok, why := auditAgainst(c, h, m); !ok {
+		c.Violate("crash:state", "reopened over zero-length memtable logs, the database differs from the acknowledged state: %s", why)
+		return
+	}
+	c.Cell("crash-artifact|empty-memtable-log|%d-files|%s", len(planted), backend)
+}
+
+func firstLine(s string) string {
+	if i := strings.IndexByte(s, '\n'); i > 0 {
+		return s[:i]
+	}
+	return s
+}
